@@ -25,6 +25,11 @@ def run(ctx):
             units.append(u2)
             MONITORS[u2.name] = ("m_enum_e2e", lambda v: None, lambda nm: None, 120)
     ctx.pyvc(units, MONITORS)
+    # the printers are functions of their argument: no module- or class-level state of todict survives from one value
+    # expression (or one library) to the next
+    from effects.history import history_items
+    history_items(ctx, "C11", "a value expression is printed from its own enumeration's symbols, whatever was printed before",
+                  select=lambda root, v: root.startswith("todict."), count=90)
     # A3 (identifier renaming commutes with evaluation) rests on PrintNodeIdentifier printing the same structure as the
     # verified PrintNode: it may override visit_Identifier only
     import ast as _ast
